@@ -105,6 +105,10 @@ func TestDumpRegress(t *testing.T) {
 	write("C13", "boundary-template", CrashCase{Src: "\tJMP {{.x}}\n\tMOV AX,{{.\n", Kind: "mutant"}, "template metacharacters in operands")
 	write("C13", "boundary-bignum", CrashCase{Src: "\tDD 99999999999999999999\n\tDB 0xffffffffffffffffff\n", Kind: "mutant"}, "numbers beyond 64 bits")
 	// ---- C04
+	write("C04", "seeded-C04-2-chain", BranchCase{Mode: 16, Org: -1, Kind: "chain", Trailing: true, Chain: []string{"JMP", "JE"}, Gaps: []int{123, 2}}, "widening the inner branch pushes the outer one over rel8 (needs two re-assembly rounds)")
+	write("C04", "seeded-C04-2-chain3", BranchCase{Mode: 16, Org: 0x7c00, Kind: "chain", Trailing: true, Chain: []string{"JC", "JMP", "JNZ"}, Gaps: []int{121, 1, 1}}, "three nested branches on the rel8 boundary")
+	write("C03", "seeded-C04-1-call-num", lp(16, -1, "CALL 0x1234"), "numeric CALL counted 4 bytes")
+	write("C03", "seeded-C03-1-bp-si", lp(16, -1, "MOV AX,[BP+SI]"), "phantom disp8 for [BP+SI]")
 	write("C04", "fixed-6349371-bwd-125", BranchCase{Mode: 16, Org: -1, Mn: "JMP", Kind: "bwd", Filler: 120}, "rel8 fit tested on the wrong quantity (wrap)")
 	write("C04", "fixed-6349371-bwd-wrap", BranchCase{Mode: 16, Org: -1, Mn: "JNZ", Kind: "bwd", Filler: 121, Trailing: true}, "rel8 wrap")
 	write("C04", "fixed-6349371-fwd-32", BranchCase{Mode: 32, Org: -1, Mn: "JMP", Kind: "fwd", Filler: 0, Trailing: true}, "32-bit short form vs near estimate")
